@@ -59,7 +59,7 @@ def tasks(tier, seed):
 
 
 def required_marks(tier):
-    return ['identity_id_nonzero', 'tree_leaf_padded', 'tree_leaf_at_terminal', 'tree_list_of_two', 'aut_dead_state_pruned', 'aut_no_path_rejected',
+    return ['aut_nodes_out_of_id_order', 'identity_id_nonzero', 'tree_leaf_padded', 'tree_leaf_at_terminal', 'tree_list_of_two', 'aut_dead_state_pruned', 'aut_no_path_rejected',
             'aut_self_loop', 'aut_parallel_edges', 'aut_site_dependent', 'dense_tree_mixed_heights', 'dense_graph_dir0']
 
 
@@ -190,8 +190,8 @@ def aut_reference(nodes, edges, term, L):
     return cur.get(term[1], {})
 
 
-def build_autop(eng, nn, edges, term, qn, L):
-    nodes = [AutOpNode(i, [], [], qn[i]) for i in range(nn)]
+def build_autop(eng, nn, edges, term, qn, L, node_order=None):
+    nodes = [AutOpNode(i, [], [], qn[i]) for i in (node_order or range(nn))]
     aut = AutOp(nodes, [], term)
     for eid, (a, b, act, opics_by_site, site_dep) in enumerate(edges):
         if site_dep:
@@ -205,7 +205,11 @@ def build_autop(eng, nn, edges, term, qn, L):
 def path_aut(eng, acc, task):
     L = task['L']
     nn = 3
-    term = [0, 1]
+    # the order in which the nodes are handed to AutOp and which ids are terminal are arbitrary input
+    node_order = [[0, 1, 2], [2, 1, 0], [1, 2, 0]][eng.choose(3, 'node_order')]
+    term = [[0, 1], [2, 0]][eng.choose(2, 'terminals')]
+    if node_order != [0, 1, 2]:
+        eng.mark('aut_nodes_out_of_id_order')
     qn = [eng.sym(f'q{i}', 'int') for i in range(nn)]
     pairs = [(a, b) for a in range(nn) for b in range(nn)]
     edges = []
@@ -241,10 +245,10 @@ def path_aut(eng, acc, task):
     if len({(a, b) for a, b, *_ in edges}) < len(edges):
         eng.mark('aut_parallel_edges')
     ref = aut_reference(range(nn), [(a, b, act, tbl) for a, b, act, tbl, _ in edges], term, L)
-    inputs = dict(L=L, nn=nn, term=term, qnums=list(qn),
+    inputs = dict(L=L, nn=nn, term=term, qnums=list(qn), node_order=node_order,
                   edges=[dict(a=a, b=b, act=act, site_dep=sd, opics=[[[o, c] for o, c in site] for site in tbl]) for a, b, act, tbl, sd in edges])
     try:
-        aut = build_autop(eng, nn, edges, term, qn, L)
+        aut = build_autop(eng, nn, edges, term, qn, L, node_order)
         if not aut.is_consistent():
             raise runner.HarnessError('generated automaton inconsistent')
         g = OpGraph.from_automaton(aut, L)
